@@ -509,6 +509,9 @@ func runInstance(l *Loaded, spec *Spec, in instance, stubs map[string]*ssa.Funct
 		json.Unmarshal(b, &m.concrete)
 	}
 	to := time.Duration(in.spec.TimeoutS) * time.Second
+	if to == 0 {
+		to = 20 * time.Minute // every instance terminates: default budget
+	}
 	m.Explore(entry, ExploreOpts{ExpectReach: in.spec.ExpectReach, PanicOK: in.spec.PanicOK, Timeout: to})
 	res.violations = m.sortedViolations()
 	res.inconclusive = append(res.inconclusive, m.inconclusive...)
